@@ -540,13 +540,18 @@ def _calculate_dist_postselection_probability(
     polynomial = np.zeros(tuple(postselect_photons + 1), dtype=float_dtype)
     polynomial[(0,) * len(postselect_photons)] = 1.0
 
+    # NOTE: The output of `multiply_by_linear_truncated` must not be its input.
+    buffer = np.zeros_like(polynomial)
+
     for input_mode, multiplicity in enumerate(dist_particles):
         probabilities = np.abs(interferometer[postselect_modes, input_mode]) ** 2
 
         for _ in range(multiplicity):
             multiply_by_linear_truncated(
-                polynomial, 1.0 - probabilities.sum(), probabilities, out=polynomial
+                polynomial, 1.0 - probabilities.sum(), probabilities, out=buffer
             )
+
+            polynomial, buffer = buffer, polynomial
 
     return polynomial[tuple(postselect_photons)]
 
